@@ -25,6 +25,9 @@ class PreCommitBoom(Exception):
 def snap_all(mdib):
     s = canon.snap(mdib)
     s['sizes'] = (len(mdib.descriptions.objects), len(mdib.states.objects), len(mdib.context_states.objects))
+    # version counters the MDIB remembers for deleted handles (a later re-creation continues from them)
+    s['remembered_versions'] = {name: dict(getattr(mdib, name).handle_version_lookup)
+                                for name in ('descriptions', 'states', 'context_states')}
     return s
 
 
